@@ -370,7 +370,18 @@ func (x *Exec) builtin(fr *frame, ins ssa.CallInstruction, b *ssa.Builtin, c *ss
 		fam := x.vc.mapFamily(mt)
 		fam.update(x.vc, st, args[0][0].T, args[1], nil, false)
 		return Val{}, r
-	case "print", "println", "close", "clear":
+	case "clear":
+		// clear(slice) zeroes the elements; clear(map) is not modelled (reported, not ignored)
+		if sl, ok := c.Args[0].Type().Underlying().(*types.Slice); ok {
+			es := ls.size(sl.Elem())
+			a := args[0]
+			n := mulc(a[2].T, es)
+			cond := and(eq("r", a[0].T), sx("<=", a[1].T, "o"), sx("<", "o", add(a[1].T, n)))
+			st.Mem = x.vc.defMem(ite(cond, "0", sel(st.Mem, "r", "o")))
+			return nil, r
+		}
+		panic(unsupported("builtin clear on " + typeStr(c.Args[0].Type())))
+	case "print", "println", "close":
 		return Val{}, r
 	case "recover":
 		return x.havocVal(types.NewInterfaceType(nil, nil), st, r, "recover"), r
